@@ -343,6 +343,8 @@ func C10(p *core.Prog, rep *core.Report) {
 	iterReadOnlyParity(p, rep)
 	hp1Heap(p, rep)
 	hp2Conservation(p, rep)
+	hp3NoDuplicates(p, rep)
+	sk1SeekInclusive(p, rep)
 	// constructors run under the shard lock (LK7 instances of the iterator call)
 	full := core.NewReport("C09")
 	runLockRules(p, full, false)
@@ -364,6 +366,8 @@ func C14(p *core.Prog, rep *core.Report) {
 	cfgTaint(p, rep)
 	hp1Heap(p, rep)
 	hp2Conservation(p, rep)
+	hp3NoDuplicates(p, rep)
+	sk1SeekInclusive(p, rep)
 	v := newVF(p, rep)
 	v.vf3Replay()
 	rep.Notes = append(rep.Notes, "considered and rejected: 'both arms of every branch on DataFileSize/SyncStrategy produce the same WRITE/INDEX-UPDATE trace' - the batch overflow branch legitimately flushes early in one arm")
@@ -572,6 +576,8 @@ func C19(p *core.Prog, rep *core.Report) {
 	metadataCodec(p, rep)
 	tb4Tags(p, rep)
 	list1Deque(p, rep)
+	list2SizeWithCursor(p, rep)
+	flt1ScoreCodec(p, rep)
 	dt1ExistenceByError(p, rep)
 	// S4: every structure update is a batch: the batch durability clauses (C04) apply
 	v := newVF(p, rep)
